@@ -334,3 +334,35 @@ m("C16-nibbles-to-bytes", ["C16"], "utils/nibbles.py",
 m("C16-unknown-type", ["C16"], "utils/nodes.py",
   "    else:\n        raise InvalidNode(\"Unable to parse node\")",
   "    else:\n        return LEAF_TYPE, None, node[1:]")
+
+# ---- C18 ------------------------------------------------------------------------------
+m("C18-set-value-unvalidated", ["C18"], "hexary.py",
+  "        validate_is_bytes(key)\n        validate_is_bytes(value)\n\n        trie_key = bytes_to_nibbles(key)",
+  "        validate_is_bytes(key)\n\n        trie_key = bytes_to_nibbles(key)")
+m("C18-delete-validates-late", ["C18"], "hexary.py",
+  "    def delete(self, key):\n        validate_is_bytes(key)\n\n        trie_key = bytes_to_nibbles(key)\n\n        try:\n            root_node = self.get_node(self.root_hash)\n",
+  "    def delete(self, key):\n        self._set_db_value(b'\\x00' * 32, b'junk')\n        validate_is_bytes(key)\n\n        trie_key = bytes_to_nibbles(key)\n\n        try:\n            root_node = self.get_node(self.root_hash)\n")
+m("C18-smt-get-length", ["C18"], "smt.py",
+  "        validate_is_bytes(key)\n        validate_length(key, self._key_size)\n        branch = []",
+  "        validate_is_bytes(key)\n        branch = []")
+m("C18-smt-keysize", ["C18"], "smt.py",
+  "        if not 1 <= key_size <= 32:", "        if not 0 <= key_size <= 32:")
+m("C18-atroot-pruning", ["C18"], "hexary.py",
+  "        if self.is_pruning:\n            raise ValidationError(\"Cannot use trie snapshot while pruning\")\n",
+  "")
+m("C18-refcount-nonpruning", ["C18"], "hexary.py",
+  "                raise ValueError(\n                    \"Cannot pass an existing reference count in to a non-pruning trie\"\n                )",
+  "                self._ref_count = None")
+m("C18-validate-bytes-bytearray", ["C18"], "validation.py",
+  "    if not isinstance(value, bytes):", "    if not isinstance(value, (bytes, bytearray)):")
+m("C18-nibble-range", ["C18", "C11"], "typing.py",
+  "                cls, (Nibble(maybe_nibble) for maybe_nibble in nibbles)",
+  "                cls, (maybe_nibble if maybe_nibble == 16 else Nibble(maybe_nibble) for maybe_nibble in nibbles)")
+m("C18-bin-delete-subtrie", ["C18"], "binary.py",
+  "        validate_is_bytes(key)\n\n        self.root_hash = self._set(\n            self.root_hash,\n            encode_to_bin(key),\n            value=b\"\",\n            if_delete_subtrie=True,",
+  "        self.root_hash = self._set(\n            self.root_hash,\n            encode_to_bin(key),\n            value=b\"\",\n            if_delete_subtrie=True,")
+m("C18-proof-branch-length", ["C18"], "smt.py",
+  "        validate_is_bytes(key)\n        validate_is_bytes(value)\n        validate_length(branch, len(key) * 8)\n\n        self._key = key",
+  "        validate_is_bytes(key)\n        validate_is_bytes(value)\n\n        self._key = key")
+m("C18-fromdb-root-length", ["C18"], "smt.py",
+  "        validate_length(root_hash, 32)  # Must be a bytes32 hash\n", "")
